@@ -309,6 +309,15 @@ func rulePAN4(p *Program) *RuleResult {
 	r := newResult("PAN4")
 	fns := apiRepoFuncs(p, r)
 	r.count("functions", len(fns))
+	vm, err := visitorMethods(p)
+	if err != nil {
+		return r.anchorFail(err)
+	}
+	venv, err := newVisitorEnv(p)
+	if err != nil {
+		return r.anchorFail(err)
+	}
+	vcover := visitorCover(p, vm)
 	for _, fn := range fns {
 		for _, b := range fn.Blocks {
 			for _, ins := range b.Instrs {
@@ -349,6 +358,9 @@ func rulePAN4(p *Program) *RuleResult {
 					}()
 				}():
 					r.ok(key, desc, p.instrPos(ins), "constant propagation: the assertion is unreachable or its operand's dynamic type is known (generic instantiation)", true)
+				case func() bool { ok, _ := getChildAssertionProved(p, venv, vm, vcover, ta); return ok }():
+					_, how := getChildAssertionProved(p, venv, vm, vcover, ta)
+					r.ok(key, desc, p.instrPos(ins), how, true)
 				case isVisitorResultAssertion(ta):
 					r.ok(key, desc, p.instrPos(ins), "visitor result assertion: discharged by PAN7 (every override returns exactly this dynamic type)", true)
 				default:
@@ -777,7 +789,16 @@ func helperPanicsOnNilOnly(fn *ssa.Function) bool {
 }
 
 // nilGuarded: `at` is only reachable when v != nil.
-func nilGuarded(fn *ssa.Function, v ssa.Value, at ssa.Instruction) bool {
+// domOrOnEdge: the idx-th out-edge of b dominates the block of at, or — when the
+// value is needed on the edge from at's block to succ (a phi operand) — is that edge.
+func domOrOnEdge(b *ssa.BasicBlock, idx int, at ssa.Instruction, succ []*ssa.BasicBlock) bool {
+	if edgeDominates(b, idx, at.Block()) {
+		return true
+	}
+	return len(succ) == 1 && succ[0] != nil && b == at.Block() && b.Succs[idx] == succ[0] && b.Succs[1-idx] != succ[0]
+}
+
+func nilGuarded(fn *ssa.Function, v ssa.Value, at ssa.Instruction, succ ...*ssa.BasicBlock) bool {
 	for _, b := range fn.Blocks {
 		ifi, ok := b.Instrs[len(b.Instrs)-1].(*ssa.If)
 		if !ok {
@@ -795,7 +816,7 @@ func nilGuarded(fn *ssa.Function, v ssa.Value, at ssa.Instruction) bool {
 		if bo.Op == token.NEQ {
 			nonNilEdge = 0
 		}
-		if edgeDominates(b, nonNilEdge, at.Block()) {
+		if domOrOnEdge(b, nonNilEdge, at, succ) {
 			return true
 		}
 	}
